@@ -586,9 +586,37 @@ fn leaf(a: &[String]) -> ! {
     std::process::exit(0)
 }
 
+/// `toowned <shape>`: BorrowedTerm::to_owned on a hand-built term of that shape must give the structurally same owned term
+fn toowned(a: &[String]) -> ! {
+    use erltf::BorrowedTerm as B;
+    use erltf::OwnedTerm as T;
+    let (b, want): (B, T) = match a[2].as_str() {
+        "nil" => (B::Nil, T::Nil),
+        "int" => (B::Integer(7), T::Integer(7)),
+        "list0" => (B::List(vec![]), T::List(vec![])),
+        "list1" => (B::List(vec![B::Integer(1)]), T::List(vec![T::Integer(1)])),
+        "list2" => (B::List(vec![B::Integer(1), B::Integer(2)]), T::List(vec![T::Integer(1), T::Integer(2)])),
+        "tuple0" => (B::Tuple(vec![]), T::Tuple(vec![])),
+        "tuple1" => (B::Tuple(vec![B::Integer(1)]), T::Tuple(vec![T::Integer(1)])),
+        "tuple2" => (B::Tuple(vec![B::Integer(1), B::Integer(2)]), T::Tuple(vec![T::Integer(1), T::Integer(2)])),
+        "list_of_empty_list" => (B::List(vec![B::List(vec![]), B::Integer(3)]), T::List(vec![T::List(vec![]), T::Integer(3)])),
+        _ => (B::Tuple(vec![B::Tuple(vec![]), B::Integer(3)]), T::Tuple(vec![T::Tuple(vec![]), T::Integer(3)])),
+    };
+    let got = b.to_owned();
+    if format!("{:?}", got) != format!("{:?}", want) {
+        eprintln!("REPLAY: to_owned gave {:?}, expected {:?}", got, want);
+        std::process::exit(101);
+    }
+    println!("REPLAY: to_owned keeps {:?}", want);
+    std::process::exit(0)
+}
+
 fn main() {
     let a: Vec<String> = std::env::args().collect();
     let kind = a[1].as_str();
+    if kind == "toowned" {
+        toowned(&a);
+    }
     if kind == "leaf" {
         leaf(&a);
     }
